@@ -152,6 +152,66 @@ func ZVExportKeyingMaterial13(suiteID uint16, masterSecret, transcript []byte, l
 	return s.exportKeyingMaterial(masterSecret, zvTranscript(s, transcript, false))(label, context, length)
 }
 
+// ZVPrfClosure returns the PRF closure selected by prfAndHashForVersion (the object stored in finishedHash.prf)
+// so that ONE closure can be called several times with inputs of different lengths.
+func ZVPrfClosure(version, suiteID uint16) (func(n int, secret, label, seed []byte) []byte, crypto.Hash) {
+	prf, h := prfAndHashForVersion(version, cipherSuiteByID(suiteID))
+	return func(n int, secret, label, seed []byte) []byte {
+		out := make([]byte, n)
+		prf(out, secret, label, seed)
+		return out
+	}, h
+}
+
+// ZVEkmClosure returns the TLS <= 1.2 exporter closure itself, exactly as the handshake stores it in
+// Conn.ekm, so that one closure can be queried several times.
+func ZVEkmClosure(version, suiteID uint16, masterSecret, clientRandom, serverRandom []byte) func(string, []byte, int) ([]byte, error) {
+	return ekmFromMasterSecret(version, cipherSuiteByID(suiteID), masterSecret, clientRandom, serverRandom)
+}
+
+// ZVExporter13 returns the TLS 1.3 exporter closure itself (Conn.ekm of a TLS 1.3 connection).
+func ZVExporter13(suiteID uint16, masterSecret, transcript []byte) func(string, []byte, int) ([]byte, error) {
+	s := cipherSuiteTLS13ByID(suiteID)
+	return s.exportKeyingMaterial(masterSecret, zvTranscript(s, transcript, false))
+}
+
+// ZVFinishedSteps uses ONE finishedHash the way a handshake does: Sum, clientSum and serverSum are taken
+// before the first Write and after every Write (each of them twice after the last one).
+func ZVFinishedSteps(version, suiteID uint16, masterSecret []byte, msgs [][]byte) (out [][3][]byte) {
+	h := newFinishedHash(version, cipherSuiteByID(suiteID))
+	out = append(out, [3][]byte{h.Sum(), h.clientSum(masterSecret), h.serverSum(masterSecret)})
+	for _, m := range msgs {
+		h.Write(m)
+		out = append(out, [3][]byte{h.Sum(), h.clientSum(masterSecret), h.serverSum(masterSecret)})
+	}
+	out = append(out, [3][]byte{h.Sum(), h.clientSum(masterSecret), h.serverSum(masterSecret)})
+	return out
+}
+
+// ZVSched13 is one TLS 1.3 transcript hash object shared, as in a handshake, by deriveSecret, finishedHash
+// and exportKeyingMaterial, with writes in between; the last exporter closure created is kept and queried.
+type ZVSched13 struct {
+	s   *cipherSuiteTLS13
+	t   hash.Hash
+	ekm func(string, []byte, int) ([]byte, error)
+}
+
+func ZVNewSched13(suiteID uint16) *ZVSched13 {
+	s := cipherSuiteTLS13ByID(suiteID)
+	return &ZVSched13{s: s, t: s.hash.New()}
+}
+func (z *ZVSched13) Write(b []byte) { z.t.Write(b) }
+func (z *ZVSched13) DeriveSecret(secret []byte, label string) []byte {
+	return z.s.deriveSecret(secret, label, z.t)
+}
+func (z *ZVSched13) Finished(baseKey []byte) []byte { return z.s.finishedHash(baseKey, z.t) }
+func (z *ZVSched13) NewExporter(masterSecret []byte) {
+	z.ekm = z.s.exportKeyingMaterial(masterSecret, z.t)
+}
+func (z *ZVSched13) Export(label string, context []byte, length int) ([]byte, error) {
+	return z.ekm(label, context, length)
+}
+
 // ZVLabels dumps the label constants of prf.go and key_schedule.go.
 func ZVLabels() map[string]string {
 	return map[string]string{
